@@ -388,6 +388,8 @@ def run_case(case):
         verdict = V("harness_main_error", e[1] + e[2][-600:])
     else:
         nfail = sum(1 for c in calls if c["outcome"] != "ok")
+        if case.get("pending_generator") and len(calls) > 1 and calls[0]["outcome"] != "ok" and calls[1]["outcome"] != "ok":
+            nfail -= 1      # the pending generator's call and the second call are in flight together: one death may fail both
         for c in calls:
             if c["outcome"] == "WRONG":
                 verdict = V("wrong_results", "call %d returned %s (kills %s)" % (c["c"], c.get("got"), kills), kill_point=kill_point)
